@@ -21,11 +21,13 @@
 #include "Matrix.h"
 
 static std::deque<double> g_uniform; static std::deque<long> g_random; static unsigned long g_ucalls = 0, g_rcalls = 0;
+static const char* g_exhausted = 0; // the sources are noexcept: exhaustion is flagged and a harmless value returned
 struct Exhausted : std::runtime_error { Exhausted(const char* w) : std::runtime_error(w) {} };
-extern "C" double drand48 (void) noexcept { g_ucalls++; if (g_uniform.empty()) throw Exhausted ("uniform-exhausted"); double v = g_uniform.front(); g_uniform.pop_front(); return v; }
-extern "C" long random (void) noexcept { g_rcalls++; if (g_random.empty()) throw Exhausted ("random-exhausted"); long v = g_random.front(); g_random.pop_front(); return v; }
+static bool g_use_real = false; typedef double (*drand48_t)(void); typedef void (*srand48_t)(long); static drand48_t real_drand48; static srand48_t real_srand48;
+extern "C" double drand48 (void) noexcept { g_ucalls++; if (g_use_real) return real_drand48(); if (g_uniform.empty()) { g_exhausted = "uniform-exhausted"; return 0.3; } double v = g_uniform.front(); g_uniform.pop_front(); return v; }
+extern "C" long random (void) noexcept { g_rcalls++; if (g_random.empty()) { g_exhausted = "random-exhausted"; return 12345; } long v = g_random.front(); g_random.pop_front(); return v; }
 static long g_seed48 = 0; static unsigned g_seedr = 0;
-extern "C" void srand48 (long s) noexcept { g_seed48 = s; }
+extern "C" void srand48 (long s) noexcept { g_seed48 = s; if (g_use_real) real_srand48 (s); }
 extern "C" void srandom (unsigned s) noexcept { g_seedr = s; }
 
 static double rd (const std::string& s) { unsigned long long u = std::stoull (s, 0, 16); double d; memcpy (&d, &u, 8); return d; }
@@ -33,13 +35,12 @@ static std::string hx (double x) { unsigned long long u; memcpy (&u, &x, 8); cha
 
 int main ()
 {
-  typedef double (*drand48_t)(void); typedef void (*srand48_t)(long);
-  drand48_t real_drand48 = (drand48_t) dlsym (RTLD_NEXT, "drand48"); srand48_t real_srand48 = (srand48_t) dlsym (RTLD_NEXT, "srand48");
+  real_drand48 = (drand48_t) dlsym (RTLD_NEXT, "drand48"); real_srand48 = (srand48_t) dlsym (RTLD_NEXT, "srand48");
   std::string line;
   while (std::getline (std::cin, line)) {
     std::vector<std::string> t; { std::istringstream is (line); std::string x; while (is >> x) t.push_back (x); }
     if (t.empty()) { std::cout << "err empty\n"; continue; }
-    g_uniform.clear(); g_random.clear(); g_ucalls = g_rcalls = 0;
+    g_uniform.clear(); g_random.clear(); g_ucalls = g_rcalls = 0; g_use_real = false; g_exhausted = 0;
     const std::string& op = t[0]; std::ostringstream o;
     try {
       if (op == "bm.seq") { unsigned n = std::stoul (t[1]); for (size_t i=2;i<t.size();i++) g_uniform.push_back (rd (t[i]));
@@ -47,6 +48,21 @@ int main ()
       else if (op == "bm.two") { std::string pat = t[1]; for (size_t i=2;i<t.size();i++) g_uniform.push_back (rd (t[i]));
         BoxMuller a (0), b (0); for (char c : pat) o << hx ((double) (c == 'A' ? a.evaluate() : b.evaluate())); o << " " << g_ucalls; }
       else if (op == "bm.seed") { long seed = std::stol (t[1]); g_seed48 = -1; BoxMuller bm (seed); o << " " << g_seed48; }
+      // the real libc source seeded through the constructor: the whole chain seed -> uniforms -> deviates
+      else if (op == "bm.real") { long seed = std::stol (t[1]); unsigned n = std::stoul (t[2]); g_use_real = true; BoxMuller bm (seed);
+        for (unsigned i=0;i<n;i++) o << hx ((double) bm()); o << " " << g_ucalls; g_use_real = false; }
+      // oracle: the delivered stream against a reference polar transform written out here (same single/double
+      // precision steps), which rejects w >= 1 and w == 0: number of positions that differ, and uniforms consumed differ
+      else if (op == "o.c18.stream") { unsigned n = std::stoul (t[1]); std::vector<double> us; for (size_t i=2;i<t.size();i++) { us.push_back (rd (t[i])); g_uniform.push_back (us.back()); }
+        std::vector<float> ref; size_t k = 0;
+        while (ref.size() < n && k + 1 < us.size()) { float v1 = 2.0*us[k] - 1.0, v2 = 2.0*us[k+1] - 1.0; k += 2; float w = v1*v1 + v2*v2;
+          if (w >= 1.0 || w == 0.0) continue; float f = std::sqrt ((-2.0 * std::log (w)) / w); ref.push_back (v1*f); ref.push_back (v2*f); }
+        bool truncated = ref.size() < n; if (truncated) n = ref.size();  // supply exhausted: compare what can be delivered
+        BoxMuller bm (0); unsigned bad = 0; for (unsigned i=0;i<n;i++) { float x = bm(); if (memcmp (&x, &ref[i], 4) != 0) bad++; }
+        o << " " << bad << " " << ((truncated || g_ucalls == k) ? 0 : 1); }
+      // oracle: every deviate delivered is finite (flag) 
+      else if (op == "o.c18.finite") { unsigned n = std::stoul (t[1]); for (size_t i=2;i<t.size();i++) g_uniform.push_back (rd (t[i]));
+        BoxMuller bm (0); unsigned bad = 0; for (unsigned i=0;i<n;i++) { float x = bm(); if (!(x - x == 0)) bad++; } o << " " << bad; }
       else if (op == "lcg.seq") { long seed = std::stol (t[1]); unsigned n = std::stoul (t[2]); real_srand48 (seed); for (unsigned i=0;i<n;i++) o << hx (real_drand48()); }
       else if (op == "rnd.double") { g_random.push_back (std::stol (t[1])); o << hx (random_double()); }
       else if (op == "rnd.value") { double scale = rd (t[1]); g_random.push_back (std::stol (t[2])); double v; random_value (v, scale); o << hx (v); }
@@ -64,14 +80,19 @@ int main ()
           g_random.push_back (r); double v; random_value (v, scale); ok2 = ok2 && (std::fabs (v) <= std::fabs (scale)); }
         for (size_t i=0;i+3<rs.size();i++) { for (int k=0;k<4;k++) g_random.push_back (rs[i+k]); Stokes<double> s;
           try { random_value (s, scale, maxpol);
-            double p = s.abs_vect(); ok3 = ok3 && (s[0] == scale) && (p >= 0) && (p <= maxpol*std::fabs(scale)*(1+1e-12)) && (maxpol > 1 || s.invariant() >= -1e-10*scale*scale); }
-          catch (std::exception&) { ok3 = ok3 && (maxpol > 1); }
+            // the squares of the invariant are representable only for moderate scales: outside, compare component-wise
+            bool moderate = std::fabs (scale) >= 1e-140 && std::fabs (scale) <= 1e140;
+            double p = moderate ? s.abs_vect() : std::fabs (scale) * std::sqrt ((s[1]/scale)*(s[1]/scale) + (s[2]/scale)*(s[2]/scale) + (s[3]/scale)*(s[3]/scale));
+            if (scale == 0) p = std::fabs (s[1]) + std::fabs (s[2]) + std::fabs (s[3]);
+            ok3 = ok3 && (s[0] == scale) && (p >= 0) && (p <= maxpol*std::fabs(scale)*(1+1e-12)) && (!moderate || maxpol > 1 || s.invariant() >= -1e-10*scale*scale); }
+          catch (std::exception&) { bool moderate = std::fabs (scale) >= 1e-140 && std::fabs (scale) <= 1e140; ok3 = ok3 && (maxpol > 1 || !moderate); }
           g_random.clear(); }
         o << " " << (ok1?1:0) << " " << (ok2?1:0) << " " << (ok3?1:0); }
       else { std::cout << "err unknown-op\n"; continue; }
+      if (g_exhausted) throw Exhausted (g_exhausted);
       std::cout << "ok" << o.str() << "\n";
     }
-    catch (Exhausted& e) { std::cout << "err " << e.what() << "\n"; }
+    catch (Exhausted& e) { std::cout << "err throw:" << e.what() << "\n"; }
     catch (std::exception& e) { std::cout << "err throw:" << e.what() << "\n"; }
   }
   return 0;
